@@ -1,5 +1,5 @@
 PROP = {
-    "groups": ["progress", "progress-session", "progress-session-e2e"],
+    "groups": ["progress", "progress-session", "progress-session-e2e", "progress-files", "e2e-tmux-pane"],
     "rule": "real textProgressBar (export_verif_progress.go, clock pinned) vs extracted model, under the library's real RuneWidth/StringWidth "
             "values passed per case: getEllipsisString (corpus x maxima, random names), getProgressBar (lengths around the minimum, steps "
             "inside/at ties/beyond the size/negative, sizes to 2^62), getProgressText at every width 1..500 (+ -7, 0, 600, 1000, 5000) x names "
@@ -17,7 +17,16 @@ PROP = {
             "reaches the live bar, a new bar / the bar after the prompt is laid out for the current width. Group progress-session-e2e: the real "
             "client (NewTrzszFilter over pipes) through sessions of two or three consecutive real tsz/trz transfers with resizes while idle, while a "
             "transfer runs (link held), before and during an open stop prompt; every progress line that reaches the terminal is measured against "
-            "the most recent width and the widths of the lines with a bar are compared with the model's layout width.",
+            "the most recent width and the widths of the lines with a bar are compared with the model's layout width. "
+            "Group progress-files: multi-file callback histories in the order transfer.go / append.go make them (name; full size, matched hash "
+            "steps, setPreSize, remaining size when a prefix is at the destination; data steps; done) with every file independently fresh / "
+            "resumed after a partial, complete or empty match / empty / a directory entry (strata resumed-then-fresh, fresh-then-resumed), "
+            "and the callback order of REAL overwrite transfers (export VerifRunFilesPair: real sendFiles/recvFiles back to back, protocol 3 and "
+            "4, callbacks of the sender or of the receiver, partial / complete / mismatching / longer destinations); the bar's writes compared "
+            "with the model (prun); oracles: every line of file k equals the line a fresh bar that saw only file k's callbacks shows (percentage, "
+            "total, speed, ETA; draw/no-draw where nothing is throttled), a fresh file starts at 0 % / 0.00 B, a data step shows prefix + sent of the "
+            "file's own size, every file ends at 100 % of its own size; end to end: the real client uploads / downloads two files with -y, one "
+            "partly at the destination: the last line of each file shows 100 % of its own size and no line more bytes than the file has. ; group e2e-tmux-pane: real transfers in a real tmux pane of 30/34 columns (tmux_pane_width from trz/tsz or from the relay) and in control mode: every pane-relative redraw of the progress line moves pane width - 1 columns left and its text is no wider",
     "trusted": [
         "modelled, not verified: github.com/mattn/go-runewidth (RuneWidth, StringWidth) and the terminal's rendering - premises width_model; "
         "binary64 arithmetic of math.Round(k*a/b) - premises round_model (the exact-rational instance is proved to satisfy them and is what the "
@@ -37,7 +46,8 @@ TEXT = {
     "text": "Machine-checked proof over an executable model of progress.go (ellipsis, the layout ladder generated statement by statement from "
             "getProgressText, bar cell arithmetic, percentage, and the onNum/onName/onSize/onStep/onDone/setPreSize/setPause/setTerminalColumns "
             "state machine with the redraw throttle; and of the client session around it: options.TerminalColumns, createProgressBar, SetTerminalColumns "
-            "with and without a live bar, the stop prompt, resetProgressBar): for every call history and every input the rendering never has a negative repeat count, "
+            "with and without a live bar, the stop prompt, resetProgressBar; and the per-file figures across the files of one transfer: after onName/onSize "
+            "they do not depend on earlier files, a fresh file starts at 0 %, a resumed or fresh file ends at 100 % of its own size): for every call history and every input the rendering never has a negative repeat count, "
             "every line is at most as wide as the terminal from 4 columns up, the percentage is within 0..100, is what the line shows, and never "
             "decreases within a file. The defect of the code before the clamp fix (step beyond size, negative size) is kept as a refutation with "
             "its witness. The model is tied to the code by regenerated constants/ladder, pinned function texts, and differential execution.",
